@@ -313,7 +313,7 @@ theorem count_roundRobin (threads n i : Nat) (h : i < threads) : (roundRobin thr
 
 /-! ## the model's answers satisfy the Spec -/
 
-theorem reqOk_answer (t : List Leaf) (rq : Req) (hwf : reqWf rq = true) (hesc : reqEscFree t rq = true) :
+theorem reqOk_answer (t : List Leaf) (rq : Req) (hwf : reqWf rq = true) :
     reqOk t rq (obsOfResp (rq.answer t)) = true := by
   cases rq with
   | res q =>
@@ -328,28 +328,26 @@ theorem reqOk_answer (t : List Leaf) (rq : Req) (hwf : reqWf rq = true) (hesc : 
       simp [obsOfResp, reqOk, hr, payloadOk_getComponent]
   | proc q vars =>
     simp only [reqWf] at hwf
-    simp only [reqEscFree] at hesc
     simp only [Req.answer, obsOfResp, reqOk]
-    exact templatedOk_processT t q vars hwf hesc
+    exact templatedOk_processT t q vars hwf
   | rproc q vars =>
     simp only [reqWf] at hwf
-    simp only [reqEscFree] at hesc
     have hr := resolutionOk_model (yamlExists t) q
     simp only [Req.answer]
     cases hres : resolve (yamlExists t) q with
     | none => simp only [hres] at hr; simp [obsOfResp, reqOk, hr]
     | some rq =>
-      simp only [hres] at hr hesc
-      simp [obsOfResp, reqOk, hr, templatedOk_processT t rq vars (resolve_wf _ q rq hwf hres) hesc]
+      simp only [hres] at hr
+      simp [obsOfResp, reqOk, hr, templatedOk_processT t rq vars (resolve_wf _ q rq hwf hres)]
 
-theorem concOk_model (t : List Leaf) (reqs : List Req) (hwf : reqs.all reqWf = true)
-    (hesc : reqs.all (reqEscFree t) = true) : concOk t reqs (modelConcObs t reqs) = true := by
+theorem concOk_model (t : List Leaf) (reqs : List Req) (hwf : reqs.all reqWf = true) :
+    concOk t reqs (modelConcObs t reqs) = true := by
   induction reqs with
   | nil => rfl
   | cons rq rest ih =>
-    simp only [List.all_cons, Bool.and_eq_true] at hwf hesc
+    simp only [List.all_cons, Bool.and_eq_true] at hwf
     simp only [modelConcObs, List.map_cons, concOk, List.isEmpty_cons, Bool.not_false, List.all_cons, List.all_nil,
       Bool.and_true, Bool.and_eq_true]
-    exact ⟨⟨reqOk_answer t rq hwf.1 hesc.1, reqOk_answer t rq hwf.1 hesc.1⟩, ih hwf.2 hesc.2⟩
+    exact ⟨⟨reqOk_answer t rq hwf.1, reqOk_answer t rq hwf.1⟩, ih hwf.2⟩
 
 end Query
